@@ -241,7 +241,8 @@ class G:
             elif k == ['ident']:
                 node['key'] = ['ident']
             if op == 'partition_t':
-                node['timeout'] = self.pick(INTERVALS)
+                # (0 is a legal deadline: flush what arrived in this loop turn)
+                node['timeout'] = 0 if self.chance(0.1) else self.pick(INTERVALS)
                 self.add(node, ('var', 1, t))
             else:
                 self.add(node, ('fix', tuple(t for _ in range(n))))
